@@ -296,7 +296,7 @@ func moCollect(p *packages.Package, st *ast.RangeStmt) (string, bool) {
 				if !ok {
 					return false
 				}
-				if pk, ok := sel.X.(*ast.Ident); !ok || pk.Name != "sort" || !(sel.Sel.Name == "Ints" || sel.Sel.Name == "Strings") {
+				if pk, ok := sel.X.(*ast.Ident); !ok || !(pk.Name == "sort" && (sel.Sel.Name == "Ints" || sel.Sel.Name == "Strings") || pk.Name == "slices" && sel.Sel.Name == "Sort") {
 					return false
 				}
 				val, _ := st.Value.(*ast.Ident)
@@ -342,11 +342,18 @@ func moSortedBeforeUse(c *Ctx, p *packages.Package, target string, rest []ast.St
 			return "is used before being sorted", false
 		}
 		pk, _ := sel.X.(*ast.Ident)
-		if pk == nil || pk.Name != "sort" || len(call.Args) < 1 {
+		if pk == nil || (pk.Name != "sort" && pk.Name != "slices") || len(call.Args) < 1 {
 			return "is used before being sorted", false
 		}
 		if a0, ok := call.Args[0].(*ast.Ident); !ok || a0.Name != target {
 			return "is used before being sorted", false
+		}
+		if pk.Name == "slices" {
+			// slices.Sort orders any cmp.Ordered element type totally
+			if sel.Sel.Name == "Sort" {
+				return "slices.Sort", true
+			}
+			return "is sorted with slices." + sel.Sel.Name + ", whose comparator is not analysed", false
 		}
 		switch sel.Sel.Name {
 		case "Strings", "Ints", "Float64s":
@@ -436,11 +443,37 @@ func moOtherSources(c *Ctx, a *flAgg) {
 					switch in := in.(type) {
 					case ssa.CallInstruction:
 						cal := in.Common().StaticCallee()
-						if cal != nil && cal.Pkg != nil {
-							pp := cal.Pkg.Pkg.Path()
+						if cal != nil && cal.Origin() != nil {
+							cal = cal.Origin() // instantiations of generic functions (maps.Keys, slices.Sorted)
+						}
+						if cal != nil && calleePkg(cal) != "" {
+							pp := calleePkg(cal)
 							switch {
 							case pp == "math/rand" || pp == "math/rand/v2" || pp == "crypto/rand":
 								hits = append(hits, hit{f, in.Pos(), "uses " + pp, "rand"})
+							case pp == "maps" && (strings.HasPrefix(cal.Name(), "Keys") || strings.HasPrefix(cal.Name(), "Values") || strings.HasPrefix(cal.Name(), "All")):
+								// an iterator over a map yields in random order: it must go straight into slices.Sorted*
+								sortedUse := false
+								if v, ok := in.(ssa.Value); ok && v.Referrers() != nil {
+									sortedUse = len(*v.Referrers()) > 0
+									for _, r := range *v.Referrers() {
+										rc, ok := r.(ssa.CallInstruction)
+										if !ok {
+											sortedUse = false
+											break
+										}
+										rcal := rc.Common().StaticCallee()
+										if rcal != nil && rcal.Origin() != nil {
+											rcal = rcal.Origin()
+										}
+										if rcal == nil || calleePkg(rcal) != "slices" || !strings.HasPrefix(rcal.Name(), "Sorted") {
+											sortedUse = false
+										}
+									}
+								}
+								if !sortedUse {
+									hits = append(hits, hit{f, in.Pos(), "iterates a map through maps." + cal.Name() + " without sorting the result (slices.Sorted): the order is random", "maps-iter"})
+								}
 							case pp == "time" && cal.Name() == "Now":
 								if funcKey(f) == "stack.toHTML" {
 									okTime++
